@@ -61,10 +61,13 @@ func restoreKnownError(err error) error {
 		if errors.Is(err, known) {
 			return err
 		}
-		if known == da.ErrContextDeadline && strings.Contains(msg, context.DeadlineExceeded.Error()) {
-			continue // Go's own "context deadline exceeded" is not the DA layer's deadline error
+		text := msg
+		if known == da.ErrContextDeadline {
+			// Go's own "context deadline exceeded" is not the DA layer's deadline error, but it contains its
+			// text: look for the DA layer's error outside of it (a message may carry both)
+			text = strings.ReplaceAll(msg, context.DeadlineExceeded.Error(), "")
 		}
-		if strings.Contains(msg, known.Error()) {
+		if strings.Contains(text, known.Error()) {
 			return fmt.Errorf("%w (via rpc: %s)", known, msg)
 		}
 	}
